@@ -161,6 +161,9 @@ func c18(c *Ctx) {
 				for _, op := range in.Operands(nil) {
 					if g, ok := (*op).(*ssa.Global); ok {
 						gn := g.Pkg.Pkg.Path() + "." + g.Name()
+						if pt, isPtr := g.Type().(*types.Pointer); isPtr && pt.Elem().String() == "error" {
+							continue // a sentinel error value
+						}
 						if _, ok := allowed[gn]; !ok {
 							bad = append(bad, name+" uses package-level variable "+gn+" at "+c.where(in))
 						}
